@@ -25,7 +25,9 @@ InForce(S, t) ==       \* S: non-empty set of tuples whose first component is a 
 QAt(p, t) == InForce(p.qtab, t)[2]
 DefaultTS == <<0, 4, 4, 4>>
 TimeSigAt(p, t) == IF p.ts = {} THEN DefaultTS ELSE InForce(p.ts, t)
-KeySigAt(p, t) == IF p.ks = {} THEN <<0, 0, 1>> ELSE InForce(p.ks, t)
+\* a key signature without mode counts as major (mode code 0 = missing -> 1)
+KeySigAt(p, t) == IF p.ks = {} THEN <<0, 0, 1>>
+                  ELSE LET e == InForce(p.ks, t) IN <<e[1], e[2], IF e[3] = 0 THEN 1 ELSE e[3]>>
 NoneClef == 6
 ClefAt(p, staff, t) == LET S == {c \in p.clefs : c[2] = staff}
                        IN IF S = {} THEN <<0, staff, NoneClef, 0, 0>> ELSE InForce(S, t)
@@ -76,6 +78,9 @@ MeasureMap(p, t) == LET m == MeasureIn(p, t) IN <<CorrectedStart(p, m), m[2]>>
 MeasureNumberMap(p, t) == MeasureIn(p, t)[3]
 MetricalPos(p, t) == LET mm == MeasureMap(p, t) IN <<t - mm[1], mm[2] - mm[1]>>
 Contiguous(p) == \A m \in p.measures : m[2] = p.T \/ \E n \in p.measures : n[1] = m[2]
+\* the anacrusis correction refers to the signature in force at 0: defined when no signature exists
+\* (default 4/4) or one starts at 0
+MeasureMapsDefined(p) == p.ts = {} \/ \E e \in p.ts : e[1] = 0
 InsideSomeMeasure(p, t) == \E m \in p.measures : m[1] <= t /\ t < m[2]
 
 (* ---- properties of the maps themselves (checked by TLC on every generated configuration);
